@@ -385,6 +385,7 @@ func (in *Interp) resetPath(prefix []dec) {
 	in.pureTabs = map[string][]*Term{}
 	in.pureTabsAgg = map[string]*Agg{}
 	in.crcTop = false
+	in.ts.noGauss = false
 	in.solver.SoftMs = 0
 	in.crcTerms = map[*Term]bool{}
 	in.lockTrace = false
@@ -672,7 +673,7 @@ func (ex *Explorer) Run(fn *ssa.Function) *HarnessResult {
 				return
 			}
 			defer solver.Close()
-			in := &Interp{P: ex.P, ts: NewTermStore(), solver: solver, cfg: ex.Cfg}
+			in := &Interp{P: ex.P, ts: NewTermStore(), solver: solver, cfg: ex.Cfg, property: ex.Property}
 			for {
 				mu.Lock()
 				for len(work) == 0 && active > 0 && !stop {
